@@ -230,7 +230,8 @@ class CallMixin:
                 self.emit(f'{tc.key}::terminates@{anchor(node)}', 'terminates', z3.And(a1 >= 0, a1 < a0),
                           {'expr': f'decreases {tc.decreases}'})
                 return self.apply_contract(tc, fi, args, kwargs, node)
-            self.limit(f'recursive call of {fi.qualname} without a contract', node)
+            if not (getattr(self, 'spec_mode', 0) and sum(1 for f in self.frames if f.func is fi) <= 1):
+                self.limit(f'recursive call of {fi.qualname} without a contract', node)
         if len(self.frames) > self.MAX_INLINE_DEPTH:
             self.limit('inline depth exceeded', node)
         if has_yield(fi.node):
